@@ -461,6 +461,11 @@ func runReplay(b behaviour) caseResult {
 		if !ok {
 			res.Status, res.Key = "violation", "submux-held-forever"
 			res.Detail = "subMux could not be read-locked within 5 s after all calls returned"
+		} else if len(subs) > 0 && len(b.Subs) == 0 && b.End {
+			// The model ends without a registered subscription, the client still has one: Cancel ran while the
+			// monitor re-created the subscription under a new id (Cancel forgets the old id and deletes the new
+			// one on the server).  Recorded, not a progress verdict: the loop legitimately waits for a response.
+			obs["registered_although_cancelled"] = subs
 		} else if len(subs) > 0 && e.c.State() == opcua.Connected {
 			n0 := atomic.LoadInt64(&e.notifs)
 			l0 := e.ctl.count("pub.send")
